@@ -123,6 +123,10 @@ type Fault struct {
 	// WriteBreakAfter >= 0: writes succeed until that many bytes were accepted;
 	// the write that crosses the limit is cut short and fails with Err.
 	WriteBreakAfter int
+	// ShortWriteAt > 0: the one write that crosses that many accepted bytes is
+	// cut short there and returns io.ErrShortWrite; later writes are accepted
+	// again (a transport that takes only part of a write, once).
+	ShortWriteAt int
 	// Err is the injected error (default io.ErrUnexpectedEOF-like net error).
 	Err error
 	// OnOp >= 1: Action is invoked (once) at the start of the k-th Read/Write.
@@ -500,6 +504,11 @@ func (c *Conn) Write(p []byte) (int, error) {
 			n = 0
 		}
 		err = c.faultErr()
+	}
+	if b := c.fault.ShortWriteAt; b > 0 && err == nil && len(c.recOut) <= b && len(c.recOut)+n > b {
+		n = b - len(c.recOut)
+		err = io.ErrShortWrite
+		c.fault.ShortWriteAt = 0
 	}
 	c.recOut = append(c.recOut, p[:n]...)
 	c.outMarks = append(c.outMarks, len(c.recOut))
